@@ -70,6 +70,15 @@ theorem gaussian_prepare_local {K : Type} [CommRing K] (st : GS K) (quarter half
     AgreeOff modes (fromCov st quarter half modes A B C rx rp) st :=
   fromCov_local st quarter half modes A B C rx rp
 
+/-- **`PassiveChannel` applied natively** (`GaussianBackend.passive` → `T_expand[ix_(modes, modes)] = T`,
+`apply_u`): whatever matrix is placed on the listed modes in whatever order, the data of all other
+modes are unchanged -/
+theorem gaussian_passive_local {K : Type} [CommRing K] (st : GS K) (modes : List Nat) (T : Nat → Nat → Cx K)
+    (i j : Nat) (hi : i < st.n) (hj : j < st.n) (hi' : ¬ i ∈ modes) (hj' : ¬ j ∈ modes) :
+    (applyU st (expandT modes T)).N i j = st.N i j ∧ (applyU st (expandT modes T)).M i j = st.M i j ∧
+    (applyU st (expandT modes T)).mean i = st.mean i :=
+  applyU_local st modes T i j hi hj hi' hj'
+
 /-- the defect repaired by the `fix:` commit 4b52a51: the old thermal loss touched spectators -/
 theorem thermal_loss_old_counterexample :
     ¬ AgreeOff [0] (thermalLossOld (vacuum 2 : GS Int) 1 1 0) (vacuum 2) := thermalLossOld_not_local
